@@ -35,7 +35,8 @@ pub enum Fault {
     /// original, then a replay of the original
     FlipSweep,
     /// inject a forged datagram ahead of this one: kind 0 = random bytes from the peer's address,
-    /// 1 = random bytes from an off-path address, 2 = mutated copy of this datagram from an off-path address
+    /// 1 = random bytes from an off-path address, 2 = mutated copy of this datagram from an off-path address,
+    /// 3 = mutated copy of this datagram from the peer's address
     Garbage { kind: u8 },
 }
 
@@ -326,7 +327,7 @@ impl SimNet {
                 Self::bump(inner, "fault.garbage_injected");
                 let mut s = self.cfg.jitter_seed ^ 0xfeed ^ ((ord as u64) << 8) ^ kind as u64;
                 let off_path: SocketAddr = "127.0.0.9:6666".parse().unwrap();
-                let forged: Vec<u8> = match kind % 3 {
+                let forged: Vec<u8> = match kind {
                     0 | 1 => {
                         let n = 1 + (splitmix(&mut s) % 1400) as usize;
                         let mut v = vec![0u8; n];
@@ -349,7 +350,7 @@ impl SimNet {
                         v
                     }
                 };
-                let from = if kind % 3 == 0 { src } else { off_path };
+                let from = if kind == 0 || kind == 3 { src } else { off_path };
                 inner.tampered_delivered += 1;
                 self.enqueue(inner, base, from, dst, forged);
                 self.enqueue(inner, base + Duration::from_micros(50), src, dst, data.to_vec());
